@@ -477,6 +477,17 @@ def workload(ctx, lentil):
             except Exception as ex:
                 ctx.check(False, 'reduce=canvas', f'reduce|empty-field|raises={type(ex).__name__}', str(ex), {})
             try:
+                # the empty field occupies no pixel: it stretches no bounding box and overlaps nothing
+                far = Field(_rdata(rng, sc_), offset=[7 + int(rng.integers(0, 4)), 9])
+                bb_far = rm.bbox_of([(far.data.shape, far.offset)])
+                ctx.check(tuple(int(x) for x in F.boundary([e, far])) == bb_far and tuple(int(x) for x in F.boundary([far, e, far])) == bb_far,
+                          'boundary=bbox', 'boundary|empty-field', 'an empty field stretches the bounding box of a collection', {'bbox': bb_far})
+                org = Field(_rdata(rng, (3, 3)))
+                ctx.check(not F.overlap((e, org)) and not F.overlap((org, e)) and not F.overlap([e, org, far]), 'extent=sets', 'overlap|empty-field',
+                          'an empty field "overlaps" a field that covers the origin sample', {})
+            except Exception as ex:
+                ctx.check(False, 'boundary=bbox', f'boundary|empty-field|raises={type(ex).__name__}', str(ex), {})
+            try:
                 m = F.merge(e, c, enforce_overlap=False)
                 bb = rm.bbox_of([(c.data.shape, c.offset)])
                 ctx.check(np.allclose(rm.dense([(m.data, m.offset)], bb), rm.dense([(c.data, c.offset)], bb), rtol=1e-13, atol=1e-13)
